@@ -5,3 +5,6 @@ import RustCcModel.Properties.C05
 #print axioms RustCc.C05.finalizePass_deallocates_when_quiet
 #print axioms RustCc.C05.created_while_finalizing
 #print axioms RustCc.C05.no_feature_no_finalizer_rc
+#print axioms RustCc.C05.finalize_only_alive
+#print axioms RustCc.C05.no_finalize_after_drop
+#print axioms RustCc.C05.dropCc_sets_flag_before_call
